@@ -83,6 +83,10 @@ def run(tier, seed):
         raise AnalysisBroken('loop variable of the particle loop not found')
     table = {}
     isdef = lambda e: _is(e, 'call') and len(e) == 2 and e[1].endswith('Definition')
+    pc = core.enums.get('bxdecay0::particle_code')
+    vals = {e_['name']: e_['val'] for e_ in pc['enumerators']} if pc else {}
+    code_pred = {vals[c_]: p_ for p_, (g_, c_) in SPECIES.items() if c_ in vals}
+    switch_tests = []
     for n in g.nodes:
         # SetParticleDefinition(G4X::XDefinition()) or `d = G4X::XDefinition()` (a helper's return value, expanded) under is_X(particle)
         arg = None
@@ -93,6 +97,17 @@ def run(tier, seed):
         if arg is None:
             continue
         bs = [b for b in F.nodes(kind='branch') if b.succ[0] == n.id]
+        if len(bs) == 1 and _is(bs[0].stmt[1], 'op', '==') and len(bs[0].stmt[1]) == 4:
+            # `switch (particle.get_code()) { case ELECTRON: ... }`: the species test written on the code itself
+            c_ = bs[0].stmt[1]
+            for a_, b_ in ((c_[2], c_[3]), (c_[3], c_[2])):
+                if _is(a_, 'call') and a_[1].endswith('get_code') and a_[2:] == (pvar,) and b_[0] == 'num' and int(b_[1]) in code_pred:
+                    table[code_pred[int(b_[1])]] = arg[1]
+                    switch_tests.append(bs[0])
+                    break
+            else:
+                table['?%d' % n.line] = None
+            continue
         if len(bs) != 1 or not _is(bs[0].stmt[1], 'call') or bs[0].stmt[1][2:] != (pvar,):
             table['?%d' % n.line] = None
             continue
@@ -105,15 +120,31 @@ def run(tier, seed):
         if v[0] != 'var' or not defs or not all(isdef(d.stmt[2]) for d in defs):
             table['?var'] = None
     want = {k: v[0] for k, v in SPECIES.items()}
-    rep.add('SPECIES', 'table', where(gp), 'is_electron/positron/gamma/alpha select G4Electron/G4Positron/G4Gamma/G4Alpha (found %s)' % table,
-            table == want)
+    if any(k_.startswith('?') for k_ in table) and not any(not k_.startswith('?') for k_ in table):
+        rep.cannot_decide('SPECIES', where(gp), 'table: the tests that select the particle definitions are not species tests this rule reads (%s)' % sorted(table))
+    else:
+        rep.add('SPECIES', 'table', where(gp), 'is_electron/positron/gamma/alpha select G4Electron/G4Positron/G4Gamma/G4Alpha (found %s)' % table,
+                table == want)
     chain_end = None
     for n in F.nodes(kind='branch'):
         if _is(n.stmt[1], 'call') and n.stmt[1][1].endswith('is_alpha') or (n.id in body and _is(n.stmt[1], 'call') and
                                                                                 n.stmt[1][1].split('::')[-1] in SPECIES):
             if g.nodes[n.succ[1]].kind == 'throw':
                 chain_end = n
-    rep.add('SPECIES', 'else-throws', where(gp), 'a particle of any other species raises instead of being dropped or mislabelled', chain_end is not None)
+    if chain_end is None and switch_tests:
+        # switch form: the last case test falls to a throw (the `default:`), directly or through the remaining tests
+        for t in switch_tests:
+            x = g.nodes[t.succ[1]]
+            seen_ = set()
+            while x.kind == 'branch' and x in switch_tests and x.id not in seen_:
+                seen_.add(x.id)
+                x = g.nodes[x.succ[1]]
+            if x.kind == 'throw':
+                chain_end = t
+    if chain_end is None and any(k_.startswith('?') for k_ in table):
+        rep.cannot_decide('SPECIES', where(gp), 'the species dispatch is not written as tests of is_X() or of get_code() on the loop particle')
+    else:
+        rep.add('SPECIES', 'else-throws', where(gp), 'a particle of any other species raises instead of being dropped or mislabelled', chain_end is not None)
     for pred, (gdef, code) in sorted(SPECIES.items()):
         pf = core.fn('bxdecay0::particle::' + pred)
         rets = [astu.src(astu.strip_casts(n['e'])) for n in astu.walk(pf['body']) if n['k'] == 'Return' and n.get('e')]
